@@ -8,7 +8,8 @@ THEOREMS = ["Mesa.Computed." + t for t in (
     "C17_no_stale_partial", "C17_define_fresh", "C17_raise_is_fresh", "C17_den_deterministic", "C17_clean_is_fresh",
     "C17_failed_is_dirty", "C17_remembers_exactly_last_reads",
     "C17_minimal", "C17_minimal_partial", "C17_read_leaves_clean_and_later_untouched", "C17_cached_read_is_free", "C17_cycle_rejected", "C17_cycle_never_returns",
-    "C17_cycle_rejected_direct", "C17_cycle_record_per_evaluation")]
+    "C17_cycle_rejected_direct", "C17_cycle_record_per_evaluation", "C17_cycle_through_computable_rejected",
+    "C17_sources_are_the_dependencies")]
 COUNTS = {"quick": 1500, "thorough": 150000}
 EXHAUSTIVE = {"thorough": True}
 TRUSTED = [
@@ -29,7 +30,8 @@ RULE = ("random dependency structures: 1-2 owners, 2-4 Observables with values {
         "Computables (chains), raise on some branches (2/12 of the scenarios) and - in 1/12 of the scenarios - assign Observables; 8-30 ops (going on after an operation raised) from assign (incl. restoring "
         "values), read, late definitions, user handlers observing Observables and Computables (in 1/10 of the scenarios the "
         "handlers read Computables while notified); 4% directed raise scenarios (reads after a failed evaluation, through a chain, two owners with the read order of finding G12); 4% directed cycle scenarios: a function reads x, then in any order assigns "
-        "other Observables, reads a (chain of) Computable(s) that recompute at that moment, reads; then assigns x - and "
+        "other Observables, reads a (chain of) Computable(s) that recompute at that moment, reads; then assigns x; a function reads a Computable that is served from its cache / "
+        "re-validated without running and then assigns an Observable that one depends on (finding G15) or does not depend on - and "
         "assignments that are no cycle although an earlier evaluation read the key; non-trivial = at least two evaluations after the definitions and at "
         "least one read served from the cache")
 
